@@ -342,4 +342,3 @@ func pureCase(run *sim.Run, i int) {
 			"seed_len": entLen, "nonce": in.Nonce, "committee": best, "first_weights": weights[:min(6, len(weights))]})
 	}
 }
-
